@@ -140,7 +140,7 @@ class ProcStage:
 
 def stages(tier, seed, witness_search=False):
     rng = Rng(seed)
-    n = 300 if tier == "quick" else 6000
+    n = 300 if tier == "quick" else 2500
     if witness_search:
         n *= 3
     return [ProcStage(b3sum_gen.cases_for_c12(rng, n))]
